@@ -424,11 +424,38 @@ class Unit:
         self.functions = [Function(f, self) for f in d["functions"]]
         self.fn_by_id = {f.id: f for f in self.functions}
         # a function whose body contains a compile error is not analysable
-        errs = [(x["file"], x["line"]) for x in self.diagnostics if x["level"] == "error"]
-        for f in self.functions:
-            for ef, el in errs:
-                if ef == f.file and f.line <= el <= f.end_line:
-                    f.invalid = True
+        # (for an error inside a template instantiation clang names the specialisation in its first note: only that
+        # specialisation is lost, its siblings instantiated with other arguments stay analysable)
+        import re as _re
+        for x in self.diagnostics:
+            if x["level"] != "error":
+                continue
+            ef, el = x["file"], x["line"]
+            inrange = [f for f in self.functions if ef == f.file and f.line <= el <= f.end_line]
+            named = None
+            for n in x.get("notes", []):
+                m = _re.search(r"in instantiation of (?:function template specialization|member function) '(.*)' requested here", str(n))
+                if m:
+                    named = m.group(1)
+                    break
+            hit = []
+            if named is not None:
+                m2 = _re.match(r"^(.*)::([A-Za-z_]\w*)<(.*)>$", named)
+                for f in inrange:
+                    ta = f.d.get("targs") or []
+                    spec = f.qname + ("<" + ", ".join(ta) + ">" if ta else "")
+                    if spec.replace(" ", "") == named.replace(" ", ""):
+                        hit.append(f)
+                    elif m2 and ta and f.name == m2.group(2) and ", ".join(ta).replace(" ", "") == m2.group(3).replace(" ", ""):
+                        # same function template, same arguments; clang elides defaulted class template arguments
+                        # in the note ('ordered_guarded<T>' for 'ordered_guarded<T, std::shared_timed_mutex>')
+                        cls = f.qname.rsplit("::", 1)[0]
+                        if cls == m2.group(1) or (m2.group(1).endswith(">") and cls.startswith(m2.group(1)[:-1] + ",")):
+                            hit.append(f)
+                if not hit and m2 and any(f.d.get("targs") and f.name == m2.group(2) for f in inrange):
+                    continue        # the failing specialisation is a sibling that the extractor did not emit
+            for f in (hit or inrange):
+                f.invalid = True
         self.rec_by_id = {r.id: r for r in self.records}
 
     def errors(self):
